@@ -233,7 +233,11 @@ def check(ctx):
     # device_failure payload checked by C13.2; add_datapoint itself:
     Env = P.cls('Environment')
     g = ctx.graph(Env, 'add_datapoint')
-    fn = P.method(Env, 'add_datapoint')[1]
+    fn0 = P.method(Env, 'add_datapoint')[1]
+    import copy as _copy
+    from ..cfg import prepass as _prepass
+    fn = _copy.copy(fn0)                # the body as the graph builder sees it (aliases of self.simulation_data read as the field)
+    fn.body = _prepass(P, fn0)
     lp, sp, dpn = [a.arg for a in fn.args.args][1:4]
 
     def store_hook(an, n, before, after):
